@@ -400,7 +400,8 @@ def special_C04(tier, seed, harness, work):
     c["evaluations"] = c["pure_inputs"]
     c["distinct_nontrivial"] = c["pure_inputs"]
     c["samples"] = ["get 1,70,200 70", "matches 1,70 & A 1 ! ANY 200", "contains 0,63,64 64"]
-    return r
+    b = builder_arm("C04", tier, seed, "the filter a generic FilterN builds does not select exactly the component sets its current configuration describes")
+    return merge_special(r, b)
 
 
 def search_C04(work, reason):
@@ -628,6 +629,9 @@ def special_C18(tier, seed, harness, work):
     cov["distinct_nontrivial"] = rounds * 12 * 2
     cov["rule"] = "one evaluation = one step (generic call + ID-based equivalent on the twin world, then full snapshot comparison); distinct non-trivial = (seed, arity, build) combinations, each a different random sequence of MapN/FilterN/QueryN calls incl. builder calls between queries and registration"
     cov["samples"] = ["arity 3: NewWith, Get (write through position pointers), f.Optional(1), f.Query, f.Exclusive(), f.Query, f.Register, f.Query …"]
+    if not viol:
+        b = builder_arm("C18", tier, seed, "a generic filter does not behave as its current configuration says after an earlier use, refusal, registration cycle or builder call on the same object")
+        return merge_special({"coverage": cov, "violations": viol}, b)
     return {"coverage": cov, "violations": viol}
 
 
@@ -654,12 +658,50 @@ def events_arm(pid, tier, seed, what):
     return {"coverage": cov, "violations": viol}
 
 
+def builder_arm(pid, tier, seed, what):
+    """random builder / registration / lock / use sequences on ONE generic filter object against the documented
+    configuration semantics (harness/builderarm.go): expected panics, selected entity sets, lock balance, and an
+    unrelated registered filter that must stay intact"""
+    cov = {}
+    viol = []
+    rounds = 1500 if tier == "quick" else 40000
+    for tags in ("verif", "verif,tiny"):
+        ok, log, hb = vlib.build_harness(tags)
+        if not ok:
+            rp = os.path.join(VERIF, "replays", "%s-build.txt" % pid)
+            open(rp, "w").write("harness does not build with tags %s:\n%s" % (tags, log))
+            return {"coverage": cov, "violations": [(rp, "no-failing-input-found")]}
+        p = subprocess.run([hb, "builderarm", str(seed), str(rounds)], stdout=subprocess.PIPE, stderr=subprocess.STDOUT, timeout=3000)
+        out = p.stdout.decode(errors="replace")
+        cov["generic_builder_arm_" + tags.replace(",", "_")] = out.strip().split("\n")[-1][:300] if p.returncode == 0 else out.strip().split("\n")[0][:300]
+        if p.returncode != 0:
+            rp = os.path.join(VERIF, "replays", "%s-builder-%s.txt" % (pid, tags.replace(",", "-")))
+            open(rp, "w").write("# %s: %s (build tags %s)\n# re-run: /verif/harness/bin/harness-%s builderarm %d %d\n%s\n" % (pid, what, tags, tags.replace(",", "-"), seed, rounds, out[-8000:]))
+            viol.append((rp, ""))
+            break
+    return {"coverage": cov, "violations": viol}
+
+
+def merge_special(a, b):
+    cov = dict(a.get("coverage", {}))
+    for k, v in b.get("coverage", {}).items():
+        if k not in cov:
+            cov[k] = v
+    return {"coverage": cov, "violations": list(a.get("violations", [])) + list(b.get("violations", []))}
+
+
+def special_C10(tier, seed, harness, work):
+    return builder_arm("C10", tier, seed, "a call on a generic filter that the documentation says panics does not (or a legal one panics), or a refused call left a trace: another registered filter is disturbed or a lock is leaked")
+
+
 def special_C11(tier, seed, harness, work):
     return events_arm("C11", tier, seed, "with a listener that acts inside its callback, replaying the events no longer rebuilds the world")
 
 
 def special_C09(tier, seed, harness, work):
-    return events_arm("C09", tier, seed, "a lock is not released, or an operation fails, in a history with a listener that acts inside its callback")
+    a = events_arm("C09", tier, seed, "a lock is not released, or an operation fails, in a history with a listener that acts inside its callback")
+    b = builder_arm("C09", tier, seed, "a generic filter first used in a locked world (its types still unregistered) does not work after the lock is gone, or a lock is leaked")
+    return merge_special(a, b)
 
 
 def special_C16(tier, seed, harness, work):
